@@ -40,6 +40,8 @@ type Graph struct {
 	Info   *types.Info
 	Fset   *token.FileSet
 	Defers []*ast.DeferStmt
+	Threaded int // join blocks duplicated for an entering edge that decides their nil test (prune.go)
+	Pruned int // conditional edges removed because they contradict the known nil-ness of a local (prune.go)
 }
 
 // New builds the graph of body. Conditions built from &&, ||, ! and parentheses are split into
@@ -125,6 +127,7 @@ func New(fset *token.FileSet, info *types.Info, body *ast.BlockStmt) *Graph {
 			}
 		}
 	}
+	g.pruneNil()
 	return g
 }
 
